@@ -47,6 +47,7 @@ from . import spectra, utils, sift, _cycles_support
 from .support import ensure_equal_dims, ensure_vector, ensure_2d, ensure_1d_with_singleton
 
 # Housekeeping for logging
+import functools
 import logging
 logger = logging.getLogger(__name__)
 
@@ -1174,7 +1175,8 @@ class Cycles:
         self.mask_conditions = None
 
         self.metrics = dict()
-        self.compute_cycle_metric('is_good', self.phase, is_good, dtype=int)
+        self.compute_cycle_metric('is_good', self.phase,
+                                  functools.partial(is_good, phase_edge=phase_edge), dtype=int)
         if compute_timings:
             self.compute_cycle_timings()
 
